@@ -20,7 +20,7 @@ def main() -> int:
     common.set_tier(a.tier)
     mod = importlib.import_module(f"props.{a.prop.lower()}")
     if a.replay:
-        return mod.replay(a.replay)
+        return mod.replay(a.replay) if hasattr(mod, "replay") else common.generic_replay(a.prop.upper(), a.replay)
     return mod.main(a.tier)
 
 
